@@ -26,7 +26,7 @@ static const Scenario kScenarios[] = {
             "a b", "all x", { { NULL } } },
   /* 6 */ { "generator_validation", { RULES "build cfg: conf s\nbuild o: cc c cfg |@ v\nbuild v: cc o c2\n", RULES "build cfg: conf s\n  command = configure --changed $in\nbuild o: cc c cfg |@ v\nbuild v: cc o c2\n", NULL },
             "s c c2", "o", { { NULL } } },
-  /* 7 */ { "dyndep", { RULES "rule mkdd\n  command = scan $in > $out\nbuild dd: mkdd ddsrc\nbuild h2: gen s\nbuild out: cc in || dd\n  dyndep = dd\nbuild x: cc out\n", NULL, NULL },
+  /* 7 */ { "dyndep", { RULES "rule mkdd\n  command = scan $in > $out\nbuild dd: mkdd ddsrc\nbuild h2: gen s |@ hv\nbuild hv: cc s\nbuild out: cc in || dd\n  dyndep = dd\nbuild x: cc out\n", NULL, NULL },
             "ddsrc s in", "x out", { { "dd", "", 0, "ninja_dyndep_version = 1\nbuild out | out.imp: dyndep | h2\n" }, { "h2", "", KEEP_IF_SAME | HALVE, NULL }, { "out", "h2", 0, NULL }, { NULL } } },
   /* 8 */ { "generated_header_deps", { RULES "build gh: cc ghsrc\nbuild o: ccd c || gh\nbuild p: ccd c2 || gh\n", NULL, NULL },
             "ghsrc c c2", "o p", { { "o", "gh", 0, NULL }, { "p", "gh", 0, NULL }, { NULL } } },
@@ -42,6 +42,8 @@ static const Scenario kScenarios[] = {
             "s1 s2 s3", "top", { { NULL } } },
   /* 14 */ { "discovered_generated_no_path", { RULES "build gh: cc ghsrc\nbuild o: ccd c\n", NULL, NULL },
             "ghsrc c", "gh o", { { "o", "gh", 0, NULL }, { NULL } } },
+  /* 15 */ { "dyndep_two_files", { RULES "rule mkdd\n  command = scan $in > $out\nbuild dd: mkdd ddsrc\nbuild dd2: mkdd ddsrc2\nbuild h2: gen s\nbuild out: cc in || dd\n  dyndep = dd\nbuild out2: cc in2 || dd2\n  dyndep = dd2\nbuild x: cc out out2\n", NULL, NULL },
+            "ddsrc ddsrc2 s in in2", "x", { { "dd", "", 0, "ninja_dyndep_version = 1\nbuild out | out.imp: dyndep | h2\n" }, { "dd2", "", 0, "ninja_dyndep_version = 1\nbuild out2: dyndep | h2\n" }, { "h2", "", KEEP_IF_SAME | HALVE, NULL }, { "out", "h2", 0, NULL }, { "out2", "h2", 0, NULL }, { NULL } } },
 };
 #ifndef SCENARIO
 #define SCENARIO 0
